@@ -1939,6 +1939,16 @@ handle_include_directive(const string &args, const YYLTYPE &loc) {
       return;
     }
 
+    // An #include on the last line of a file that lacks a final newline is
+    // processed after that file has been popped, so a file that includes
+    // itself that way never nests; bound the number of inclusions of one file
+    // as well.
+    static std::map<std::string, int> include_counts;
+    if (++include_counts[filename.get_fullpath()] > 5000) {
+      error("file included too many times: " + filename.get_fullpath(), loc);
+      return;
+    }
+
     if (get_file_depth() >= 200) {
       // Almost certainly a file that (indirectly) includes itself without an
       // include guard; stop before we run out of memory.
